@@ -31,6 +31,8 @@ CONFIGS = {
     # dynamic dispatch built for a portable (SSE4.2) baseline: the AVX2 kernels are still compiled (target attributes)
     # and chosen at run time, while every compile-time ISA macro says SSE
     'K8': ['-std=gnu++17'] + SSE + ['-DNDEBUG', '-DSONIC_DYNAMIC_DISPATCH=1'],
+    # westmere under AddressSanitizer: the sanitizer-macro branches of the SSE kernels (the AVX2 ones are K2)
+    'K9': ['-std=gnu++17'] + SSE + ['-DNDEBUG', '-fsanitize=address'],
     # locked allocator
     'K5': ['-std=gnu++17'] + AVX2 + ['-DNDEBUG', '-DSONIC_LOCKED_ALLOCATOR'],
     # adaptive memory pool policy
